@@ -40,6 +40,8 @@ var profiles = map[string]profile{
 		Transfer: 300, Member: 60, Snapshot: 10, MinVoters: 2, MaxVoters: 5, MaxNonvoters: 1, Clients: 3},
 	"mix": {Name: "mix", Partition: 60, Heal: 120, Crash: 50, Restart: 150, Stall: 40, ConnReset: 40, ConnStall: 30,
 		Transfer: 60, Member: 100, Snapshot: 100, WipeNonvoter: 10, MinVoters: 2, MaxVoters: 5, MaxNonvoters: 2, Clients: 5, TinySegments: true},
+	"snapmember": {Name: "snapmember", Partition: 40, Heal: 120, Crash: 40, Restart: 150, Stall: 60, ConnReset: 20, ConnStall: 20,
+		Transfer: 20, Member: 200, Snapshot: 250, MinVoters: 1, MaxVoters: 4, MaxNonvoters: 2, Clients: 4, TinySegments: true, C06Every: 8},
 	"calm": {Name: "calm", MinVoters: 1, MaxVoters: 5, MaxNonvoters: 1, Clients: 4, Snapshot: 30, Member: 30, Transfer: 30},
 }
 
